@@ -59,6 +59,21 @@ fn apply_et_ops(t: &mut EndTag<'_>, ops: &str) {
     }
 }
 
+/// C16 cross-check: every attribute that attributes() lists can be looked up by its own name, and the lookup returns the
+/// value of the first attribute of that (lower-cased) name.  Names the setters' validator refuses by contract (empty, or
+/// containing whitespace, '/', '>' or '=') and non-ASCII names (encoding dependent) are skipped.
+fn attrs_lookup_ok(el: &Element<'_, '_>) -> bool {
+    let list: Vec<(String, String)> = el.attributes().iter().map(|a| (a.name(), a.value())).collect();
+    for (n, _) in &list {
+        if n.is_empty() || !n.is_ascii() || n.bytes().any(|b| b == b' ' || b == b'\t' || b == b'\n' || b == b'\r' || b == 0x0c || b == b'/' || b == b'>' || b == b'=') { continue; }
+        let first = list.iter().find(|(m, _)| m == n).map(|(_, v)| v.clone());
+        if el.get_attribute(n) != first || !el.has_attribute(n) { return false; }
+        let upper = n.to_ascii_uppercase();
+        if el.get_attribute(&upper) != first || !el.has_attribute(&upper) { return false; }
+    }
+    true
+}
+
 fn element_handler(sh: Sh, idx: usize, ops: String) -> impl FnMut(&mut Element<'_, '_>) -> HResult {
     move |el: &mut Element<'_, '_>| {
         let tok = format!("S {:?} {} {} [{}] {}", el.source_location().bytes(), hex(el.tag_name_preserve_case().as_bytes()),
@@ -68,6 +83,7 @@ fn element_handler(sh: Sh, idx: usize, ops: String) -> impl FnMut(&mut Element<'
             return fail();
         }
         let mut res = String::new();
+        if !attrs_lookup_ok(el) { res.push('!'); }
         let origin = el.source_location().bytes().start;
         for o in ops.split(',').filter(|o| !o.is_empty()) {
             let arg = if o.len() > 3 { &o[3..] } else { "" };
@@ -123,6 +139,7 @@ fn element_handler(sh: Sh, idx: usize, ops: String) -> impl FnMut(&mut Element<'
             };
             res.push(if ok { 'k' } else { 'e' });
         }
+        if !attrs_lookup_ok(el) { res.push('!'); }
         let after = format!("{}[{}]", hex(el.tag_name_preserve_case().as_bytes()),
             el.attributes().iter().map(|a| format!("{}={}", hex(a.name_preserve_case().as_bytes()), hex(a.value().as_bytes()))).collect::<Vec<_>>().join(","));
         sh.borrow_mut().log.push(format!("H el {idx} r={res} a={after} | {tok}"));
